@@ -221,11 +221,22 @@ def check_obligations(module, allow_native=()):
             rc2, o2, e2 = run(["lake", "env", "lean", path], cwd=LEAN_DIR, timeout=7200)
         text = o2 + e2
         res["log"] = (out[-3000:] + "\n---- file-wise ----\n" + text[-6000:])
-    axioms = {}
-    for mm in re.finditer(r"'([\w.'!?]+)' depends on axioms: \[([^\]]*)\]", text, re.S):
-        axioms[mm.group(1)] = [a.strip() for a in mm.group(2).replace("\n", " ").split(",") if a.strip()]
-    for mm in re.finditer(r"'([\w.'!?]+)' does not depend on any axioms", text):
-        axioms[mm.group(1)] = []
+    def parse_axioms(text):
+        axioms = {}
+        for mm in re.finditer(r"'([\w.'!?]+)' depends on axioms: \[([^\]]*)\]", text, re.S):
+            axioms[mm.group(1)] = [a.strip() for a in mm.group(2).replace("\n", " ").split(",") if a.strip()]
+        for mm in re.finditer(r"'([\w.'!?]+)' does not depend on any axioms", text):
+            axioms[mm.group(1)] = []
+        return axioms
+
+    axioms = parse_axioms(text)
+    if rc == 0 and theorems and not axioms:
+        # a long first build has been seen to come back without the module's messages; the cached
+        # build replays them
+        rc, out = lake_build([module])
+        text = out
+        res["log"] = out[-6000:]
+        axioms = parse_axioms(text)
     res["axioms"] = axioms
     short = {t.split(".")[-1]: t for t in theorems}
     ok = 0
